@@ -108,7 +108,7 @@ def _pwa(t, pts):
     det_ = np.abs((b_ - a_)[:, 0] * (c_ - a_)[:, 1] - (b_ - a_)[:, 1] * (c_ - a_)[:, 0])
     long_ = np.maximum(np.maximum(((b_ - a_) ** 2).sum(1), ((c_ - a_) ** 2).sum(1)), ((c_ - b_) ** 2).sum(1))
     quality = det_ / np.maximum(long_, 1e-300)
-    return out, (status >= 0) & (quality[best] > 1e-5)
+    return out, (status >= 0) & (quality[best] > 1e-3)
 
 
 def reference_apply(t, pts):
